@@ -144,7 +144,17 @@ def opInstance : Op := fun j => do
   let g := cfg.gridSize
   let lv := (s.agents.map (·.level)).mergeSort (fun a b => decide (a ≤ b))
   let low3 : Int := (lv.take 3).sum
+  -- the transliterated generator (`generate`, theorems `Props.C10.lbf_generate_*`): read the draw off the
+  -- implementation's reset state (flat cell = x * g + y, levels as they are); it must lie in the samplers'
+  -- support (`validDraw`: current food mask bit set, agents distinct on mask cells, levels in range) and the
+  -- model's generator run on that draw must reproduce the state
+  let gc : GenCfg := { gridSize := g, numAgents := na, numFood := nf, maxAgentLevel := maxLevel, forceCoop := coop }
+  let flat (p : Pos) : Int := p.1 * (g : Int) + p.2
+  let draw : GenDraw := { foodFlat := s.foods.map (fun f => flat f.pos), agentFlat := s.agents.map (fun a => flat a.pos),
+                          agentLevels := s.agents.map (·.level), foodLevels := s.foods.map (·.level) }
   pure (jObj [
+    ("draw_in_support", jBool (validDraw gc draw)),
+    ("generator_matches", jBool (decide (generate gc draw = s))),
     ("counts", jBool (s.agents.length == na && s.foods.length == nf)),
     ("entities_on_distinct_free_cells", jBool (decide (Consistent g s))),
     ("ids_and_levels", jBool (decide (WF s) &&
